@@ -369,9 +369,30 @@ def rule_r8(prog, res):
     from .. import guardspec
     for r in raises:
         atoms = guardspec.atoms_at(r, gate.node)
-        extra = [(t, p_) for t, p_ in atoms if 'internalDTD' not in t and
-                 'iterentities' not in t and 'resolve_entities' not in t and
-                 'dtd' not in t.lower()]
+        def about_the_dtd(t, depth=0):
+            """the condition speaks about the DTD / the entity list / the
+            resolve_entities option, directly or through locals bound from
+            them (a first-entity probe with a private sentinel)"""
+            if any(k in t for k in ('internalDTD', 'iterentities',
+                                    'resolve_entities')) or \
+                    'dtd' in t.lower():
+                return True
+            if depth > 3:
+                return False
+            names = {y.id for y in ast.walk(ast.parse(t, mode='eval'))
+                     if isinstance(y, ast.Name)}
+            vals = []
+            for nm in names:
+                vs = [unparse(a.value) for a in walk_no_defs(gate.node)
+                      if isinstance(a, ast.Assign) and any(
+                          isinstance(tg, ast.Name) and tg.id == nm
+                          for tg in a.targets)]
+                if not vs:
+                    return False
+                vals += vs
+            return bool(vals) and all(
+                v == 'object()' or about_the_dtd(v, depth + 1) for v in vals)
+        extra = [(t, p_) for t, p_ in atoms if not about_the_dtd(t)]
         res.ob('R8', '%s:%d' % (gate.module.relpath, r.lineno),
                'gate condition: %s' % [t for t, _ in atoms],
                'VIOLATED' if extra else 'ok')
